@@ -156,6 +156,9 @@ func genRepo(c *ctx, out string) {
 	l.p("/-- crlrepository.go:AddCRL — the locations of a newly added, not yet loaded entry are written to its store. -/")
 	l.p("def locationsStoredOnAdd : Bool := %v", stored)
 
+	l.p("/-- crlrepository.go:addNewEmptyEntry — under 'verify' a list found on disk without a stored signer certificate (it was never verified) is not treated as loaded. -/")
+	l.p("def persistedNeedsSignerUnderVerify : Bool := %v", c.loadedInference(c.funcDecl(rp, "Repository", "addNewEmptyEntry")))
+
 	// strict gate shape
 	isr := c.funcDecl(rp, "Repository", "IsRevoked")
 	gateStrictOnly := false
